@@ -262,8 +262,14 @@ def stats_distances(ctx, g):
     cases = []
     for _ in range(40 if ctx.tier == 'quick' else 200):
         first, last, today = (datetime.date(*r.choice(FAR)) for _ in range(3))
+        tz = 'UTC'
+        if r.random() < 0.4:
+            # a span across a daylight-saving switch of the process zone is still a whole number of days
+            first, last, today = (datetime.date(*r.choice([(2021, 3, 10), (2021, 3, 13), (2021, 3, 14), (2021, 3, 15), (2021, 3, 17), (2021, 3, 27), (2021, 3, 29), (2021, 10, 30),
+                                                            (2021, 11, 1), (2021, 11, 6), (2021, 11, 8), (2021, 11, 10), (2021, 4, 3), (2021, 4, 5), (2021, 10, 2), (2021, 10, 4)])) for _ in range(3))
+            tz = r.choice(['America/New_York', 'America/Los_Angeles', 'Europe/Berlin', 'Australia/Lord_Howe', 'Asia/Tokyo', 'Pacific/Kiritimati', 'Pacific/Pago_Pago'])
         files = {b'food.yaml': b'', b'log.yaml': ('%s:\n  a: 1\n%s:\n  b: 2\n' % (fmt_date_layout(first, L), fmt_date_layout(last, L))).encode()}
-        c = app(['stats'], files, g={'today': fmt_date_layout(today, L), 'noColor': True}, kind='stats distances', disk=True)
+        c = app(['stats'], files, g={'today': fmt_date_layout(today, L), 'noColor': True}, kind='stats distances', disk=True, tz=tz, today_date=today)
         c.meta.update({'first': first, 'last': last, 'today': today})
         cases.append(c)
     impl, model = run_apps(ctx, cases)
